@@ -414,7 +414,17 @@ impl World {
                     }
                     OP_DROP => {
                         let obj = self.held.remove(&(l[3] as usize)).unwrap();
-                        TID.sync_scope(t, || drop(obj));
+                        TID.sync_scope(t, || {
+                            if (obj.id + t) % 3 == 0 {
+                                // the holder panics: the object goes back while its thread unwinds
+                                let _ = std::panic::catch_unwind(std::panic::AssertUnwindSafe(move || {
+                                    let _o = obj;
+                                    std::panic::resume_unwind(Box::new(()))
+                                }));
+                            } else {
+                                drop(obj)
+                            }
+                        });
                         let _ = self.log.sh.lock().unwrap().results.insert(t, 10);
                         self.handles.push(None);
                     }
